@@ -77,6 +77,8 @@ class LiteralEvaluator:
 					left = int(self._calc(left, op, right)) if op in LiteralEvaluator.ArthmeticOps else self._bitwise(left, op, right)
 				elif isinstance(left, str) and isinstance(right, str) and op == '+':
 					assert self._allow_string(left) and self._allow_string(right)
+					# XXX 3連クォートの文字列は結合に非対応
+					assert not self._triple_quoted(left) and not self._triple_quoted(right)
 					left = self._cat(left, right)
 				else:
 					assert False
@@ -142,6 +144,16 @@ class LiteralEvaluator:
 		quotes = ['"', "'"]
 		return len(string) >= 2 and string[0] in quotes and string[-1] in quotes
 	
+	def _triple_quoted(self, string: str) -> bool:
+		"""3連クォートの文字列か判定
+
+		Args:
+			string: 文字列
+		Returns:
+			True = 3連クォート
+		"""
+		return len(string) >= 6 and string[:3] in ['"""', "'''"]
+
 	def _cat(self, left: str, right: str) -> str:
 		"""文字列結合
 
@@ -181,8 +193,11 @@ class LiteralEvaluator:
 		return ''
 
 	def on_func_call(self, node: defs.FuncCall, calls: Evaluator.Value, arguments: list[Evaluator.Value]) -> Evaluator.Value:
-		# スカラー型のキャストのみ許可
+		# スカラー型のキャストのみ許可 XXX 引数は1つのみ対応(基数などの追加引数は非対応)
 		org_calls = node.calls.tokens
+		if len(arguments) != 1:
+			raise Errors.OperationNotAllowed(node, calls, arguments)
+
 		if org_calls == 'int':
 			if isinstance(arguments[0], str):
 				return int(arguments[0][1:-1])
